@@ -4,10 +4,27 @@ handled, child deserialisation calls, payload iterator steps, accumulators."""
 from analysis import View, norm_path, erase_generics, strip_refs, term_mentions
 
 
+EXTERNAL_ROOTS = {"std", "core", "alloc", "serde_json", "serde", "actix_web", "axum", "axum_core", "actix_http", "actix_utils", "http", "syn", "quote",
+                  "proc_macro2", "proc_macro", "convert_case", "strsim", "serde_cs", "deserr_internal", "deserr_catalogue", "deserr_controls",
+                  "futures", "futures_core", "futures_util", "tokio", "bytes", "mime", "hyper", "serde_urlencoded", "tower", "tower_service"}
+
+
 def npath(p):
+    """item path with the library's own module prefix removed (`value::ValuePointerRef::..`, and just as well
+    `value::pointer::ValuePointerRef::..` after a module move -> `ValuePointerRef::..`): a chain of lower-case
+    module segments in front of a type / trait name is dropped unless it starts in another crate"""
     if p is None:
         return None
     p = norm_path(p)
+    if p.startswith("<"):
+        return p
+    segs = p.split("::")
+    if segs and segs[0] not in EXTERNAL_ROOTS:
+        i = 0
+        while i < len(segs) - 1 and segs[i] and (segs[i][0].islower() or segs[i][0] == "_") and segs[i].replace("_", "").isalnum():
+            i += 1
+        if i < len(segs) and segs[i] and segs[i][0].isupper():
+            return "::".join(segs[i:])
     if p.startswith("value::"):
         p = p[len("value::"):]
     return p
